@@ -69,11 +69,11 @@ def enum_shard(st, shard, nshards, payload):
         forms = fm.ctl_formulas(k)
         objs = [fm.to_lib(f, L) for f in forms]
         fpairs = [sorted(pairs_in(f)) for f in forms]
-        for K in km.scope(n):
+        for K in scope_iter(n, stride, nshards):
             idx += 1
             if idx % nshards != shard:
                 continue
-            if stride > 1 and (idx // nshards) % stride != 0:
+            if n < 4 and stride > 1 and (idx // nshards) % stride != 0:
                 continue
             M = ref.Model(K)
             feats = km.features(K)
@@ -109,6 +109,13 @@ def enum_shard(st, shard, nshards, payload):
                 if nt and (fi % 37 == 0):
                     st.sample({'K': K, 'f': f, 'expected': ref.mask_to_list(exp)},
                               cls='n%d-%s' % (n, ','.join(fpairs[fi])))
+
+
+def scope_iter(n, stride, nshards):
+    """S(n) for n <= 3 (the caller applies the stride); for n >= 4 the strided decode."""
+    if n >= 4:
+        return km.scope_strided(n, stride)
+    return km.scope(n)
 
 
 def minimise(f, check, valid=fm.ctl_state, key='f'):
@@ -191,13 +198,14 @@ def run(ctx):
                 'empty nor all states; exhaustive cases distinct by construction, random ones '
                 'counted by digest of (K, f).')
     if ctx.thorough:
-        scopes = [(1, 2, 1), (2, 2, 1), (3, 1, 1), (3, 2, 97)]
+        scopes = [(1, 2, 1), (2, 2, 1), (3, 1, 1), (3, 2, 97), (4, 1, 211)]
         ctx.scopes = ['S(1)+S(2) x CTL k<=2 (8964 formulas)', 'S(3) x CTL k<=1 (144 formulas)',
-                      'every 97th structure of S(3) x CTL k<=2']
+                      'every 97th structure of S(3) x CTL k<=2',
+                      'every 211th structure of S(4) (61422 of 12.96 M) x CTL k<=1']
     else:
-        scopes = [(1, 2, 1), (2, 1, 1), (2, 2, 9), (3, 1, 8)]
+        scopes = [(1, 2, 1), (2, 1, 1), (2, 2, 9), (3, 1, 8), (4, 1, 4001)]
         ctx.scopes = ['S(1) x CTL k<=2', 'S(2) x CTL k<=1', 'every 9th of S(2) x CTL k<=2',
-                      'every 8th of S(3) x CTL k<=1']
+                      'every 8th of S(3) x CTL k<=1', 'every 4001st of S(4) x CTL k<=1']
     ctx.exhaustive = True
     ctx.assumptions = ['reference semantics vp/ref.py (R-CTL, cross-checked against R-STAR in '
                        'the random tier and on replay) is the trusted base']
